@@ -87,10 +87,9 @@ func (g *gapi[T]) layout() {
 				walk(t.Elem(), off+uintptr(i)*t.Elem().Size())
 			}
 		case reflect.Pointer, reflect.Slice, reflect.Map, reflect.String, reflect.Interface, reflect.Chan, reflect.Func, reflect.UnsafePointer:
+			// addresses differ from process to process: not part of the
+			// comparable string (Bytes adds every Get instead)
 			g.ptrFree = false
-			for i := uintptr(0); i < t.Size(); i++ {
-				g.mask[off+i] = true
-			}
 		default:
 			for i := uintptr(0); i < t.Size(); i++ {
 				g.mask[off+i] = true
